@@ -211,7 +211,16 @@ def handleN (case impl : List String) : Verdict :=
       let v := Verdict.ok tags
       -- ---------------- correspondence with the model
       let v := v.withDiff (nv != ex.nVerts) s!"vertex count: impl {nv}, model {ex.nVerts}"
-      let v := v.withDiff (m.faces.toList != ex.faces) s!"face list differs (impl {m.faces.size} faces, model {ex.faces.length})"
+      -- faces are compared as a MULTISET of oriented triangles: the order in which faces are emitted and which
+      -- of its three corners a face starts with are not behaviour the property speaks about (the winding is)
+      let canonFace (f : Nat × Nat × Nat) : Nat × Nat × Nat :=
+        let (a, b, c) := f
+        if a ≤ b && a ≤ c then (a, b, c) else if b ≤ a && b ≤ c then (b, c, a) else (c, a, b)
+      let faceKey (f : Nat × Nat × Nat) : Nat := (f.1 * 1000003 + f.2.1) * 1000003 + f.2.2
+      let canonFaces (fs : List (Nat × Nat × Nat)) : Array Nat := ((fs.map (faceKey ∘ canonFace)).toArray.qsort (· < ·))
+      let sameFaces := canonFaces m.faces.toList == canonFaces ex.faces
+      let v := if sameFaces && m.faces.toList != ex.faces then v.addTag "face-order-differs" else v
+      let v := v.withDiff (!sameFaces) s!"face set differs (impl {m.faces.size} faces, model {ex.faces.length})"
       -- ---------------- spec oracle on the implementation's output
       let v := v.withSpec (!p.finite) "non-finite" "a coordinate or normal component is NaN or infinite"
       let v := v.withSpec (!indicesValid m) "index-out-of-range" "a face index is not below the vertex count"
